@@ -531,7 +531,8 @@ Fixpoint dedup (l : list str) (seen : list str) : list str :=
    (lexec fuel (stmt…)): the same for the scoped semantics lx_l on lpfrag, from
    the environment [[]]; the names are looked up in the final environment
    (its only frame left is the globals: a result with another number of
-   frames is reported as (frames n)) *)
+   frames is reported as (frames n))
+   (shape (stmt…)) ↦ (shape wplain nb plain lfrag) *)
 Definition exec_case (x : sx) : sx :=
   match x with
   | Lst [Sym t; Int fuel; Lst stmts] =>
@@ -565,6 +566,16 @@ Definition exec_case (x : sx) : sx :=
                  | Some (env, false) => Lst [Sym (s_ "frames"); Int (Z.of_nat (List.length env))]
                  | _ => Lst [Sym (s_ "undefined")]
                  end
+        end
+      else Sym (s_ "decode-error")
+  | Lst [Sym t; Lst stmts] =>
+      (* (shape (stmt…)) ↦ (shape wplain nb plain lfrag): the side conditions of the whole-program theorems *)
+      if str_eqb t (s_ "shape") then
+        match dec_program 400 stmts with
+        | None => Sym (s_ "decode-error")
+        | Some p =>
+            let b (x : bool) := Sym (if x then s_ "t" else s_ "f") in
+            Lst [Sym (s_ "shape"); b (wplain_slist p); b (nb_slist p); b (plain_slist p); b (lfrag_slist p)]
         end
       else Sym (s_ "decode-error")
   | _ => Sym (s_ "decode-error")
